@@ -8,7 +8,7 @@ checked against bit-level read/write sets computed from the IR alone.
 import itertools
 import sys
 
-from pymtl3 import Component, update, update_once, U, M, Wire, OutPort, InPort, Bits4, blocking, non_blocking
+from pymtl3 import Component, update, update_once, U, M, Wire, OutPort, InPort, Bits4, blocking, non_blocking, method_port
 
 from vt import ir, irgen, irref
 from vt.acc import Acc, MachineryError
@@ -408,9 +408,52 @@ class OnceNoMethods(Component):
         s.log.append("up_plain"); s.out @= s.mid + 1
 
 
+class _MReg(Component):
+  def construct(s):
+    s.v = 0
+    s.add_constraints(M(s.wr) < M(s.rd))
+
+  @method_port
+  def wr(s, v):
+    s.v = v
+
+  @method_port
+  def rd(s):
+    return s.v
+
+
+class FuncMethodCall(Component):
+  """a method port called inside an @s.func function: the ordering constraint between the methods must reach the block that
+  calls the function (direct=1: the same call written in the block itself)"""
+  def construct(s, direct):
+    s.r = _MReg()
+    s.cnt = 0
+    s.got = 0
+    s.log = []
+
+    @s.func
+    def do_write(v):
+      s.r.wr(v)
+
+    if direct:
+      @update_once
+      def up_wr():
+        s.log.append("up_wr"); s.cnt += 1; s.r.wr(s.cnt)
+    else:
+      @update_once
+      def up_wr():
+        s.log.append("up_wr"); s.cnt += 1; do_write(s.cnt)
+
+    @update_once
+    def up_rd():
+      s.log.append("up_rd"); s.got = s.r.rd()
+
+
 def handwritten_cases():
   for n in (1, 2):
     yield ("once", (n,))
+  for direct in (1, 0):
+    yield ("funcm", (direct,))
   for wb, rb, fb, sb in itertools.product((0, 1), repeat=4):
     yield ("fl", (wb, rb, fb, sb))
   for q in ("PipeQueueCL", "BypassQueueCL", "NormalQueueCL"):
@@ -426,7 +469,7 @@ def build_hw(kind, args, group, chooser=None):
   from pymtl3.passes.mamba.PassGroups import UnrollSim, HeuTopoUnrollSim, Mamba2020
   from vt import seams
   import pymtl3.stdlib.queues.cl_queues as clq
-  top = FLDesign(*args) if kind == "fl" else (OnceNoMethods(*args) if kind == "once" else CLCallers(getattr(clq, args[0]), args[1]))
+  top = FLDesign(*args) if kind == "fl" else (OnceNoMethods(*args) if kind == "once" else (FuncMethodCall(*args) if kind == "funcm" else CLCallers(getattr(clq, args[0]), args[1])))
   top.elaborate()
   with seams.shuffle_seam(chooser):
     if group == "default": top.apply(DefaultPassGroup())
@@ -440,6 +483,8 @@ def build_hw(kind, args, group, chooser=None):
 def hw_required(kind, args):
   if kind == "fl":
     return [("up_prod", "up_cons0"), ("up_prod", "up_cons1"), ("up_first", "up_second")], 5
+  if kind == "funcm":
+    return [("up_wr", "up_rd")], 2
   if kind == "once":
     return [("up_once_a", "up_once_b" if args[0] == 2 else "up_plain")], 2
   q = args[0]
